@@ -192,6 +192,15 @@ def run(seed, scenario, trace=None, tier='quick'):
                                 VAL[state] >= VAL[rps.TMGR_STAGING_INPUT_PENDING]:
                             d['pilot'] = pids[pidx]
                             st['binds'][(tasks[t].uid, state)] = pids[pidx]
+                        if state not in FINAL and VAL[state] >= VAL[
+                                rps.AGENT_STAGING_OUTPUT_PENDING] and \
+                                (t + len(op[1])) % 3 == 0:
+                            # a task which failed on the pilot and still is
+                            # on its way (staging on error): it carries the
+                            # error of its process
+                            d['exit_code'] = 1
+                            d['exception'] = 'RuntimeError("task failed")'
+                            d['exception_detail'] = 'exit code: 1'
                         arg.append(d)
                         st['since_sync'].add(tasks[t].uid)
                     if arg:
